@@ -18,6 +18,27 @@ for _name in ("_ESCAPING_IN_CHARACTER_LITERALS", "_ESCAPING_IN_RANGE"):
 PROPERTY = "C16"
 LEVEL = "model_checking"
 
+
+class _ReProxy:
+    """Stands in for the ``re`` module inside retree/_parse.py: ``fullmatch`` of a constant pattern on a symbolic piece of the
+    input (the hexadecimal digits of an escape) becomes ONE solver term instead of a fork per character class."""
+
+    def __getattr__(self, name: str) -> Any:
+        return getattr(re, name)
+
+    @staticmethod
+    def fullmatch(pattern: Any, text: Any, flags: int = 0) -> Any:
+        from vf.sym import regex_match
+        if not symbolic() or flags != 0 or not isinstance(pattern, str):
+            return re.fullmatch(pattern, text, flags)
+        if regex_match(pattern, text, "fullmatch"):
+            return True
+        return None
+
+
+if symbolic():
+    retree_parse.re = _ReProxy()  # type: ignore
+
 # warm-up for icontract
 retree.parse(["^a[b-c]{1,2}(x|y)*$"])
 _r, _e = retree.parse(["a{"])
@@ -83,7 +104,8 @@ def _faithful(s: str, r: str, max_len: int) -> None:
         got_s = re.match(s, w) is not None
         got_r = re.match(r, w) is not None
         if got_s != got_r:
-            fail("faithful:rendering-matches-differently", "pattern %r rendered as %r: on %r original=%s rendering=%s",
+            cause = ":whitespace-in-quantifier" if re.search(r"\{[0-9 \t,]*[ \t][0-9 \t,]*\}", s) else ""
+            fail("faithful:rendering-matches-differently" + cause, "pattern %r rendered as %r: on %r original=%s rendering=%s",
                  s, r, w, got_s, got_r)
         fail("harness:rx-witness-not-confirmed-by-re", "pattern %r vs %r on %r", s, r, w)
     if res["verdict"] == "unknown":
@@ -94,7 +116,8 @@ def _faithful(s: str, r: str, max_len: int) -> None:
         res = rx.compare(a, rx.from_retree(tree), max_len, mode="match")
         if res["verdict"] == "refuted":
             w = "".join(chr(c) for c in res["witness"])
-            fail("faithful:tree-differs-from-python-reading", "pattern %r: on %r python=%s", s, w, res["a_accepts"])
+            cause = ":whitespace-in-quantifier" if re.search(r"\{[0-9 \t,]*[ \t][0-9 \t,]*\}", s) else ""
+            fail("faithful:tree-differs-from-python-reading" + cause, "pattern %r: on %r python=%s", s, w, res["a_accepts"])
 
 
 def check(s: str, rx_len: int) -> str:
@@ -155,7 +178,144 @@ def _in_class(name: str, c: str) -> Any:
     return FIRST[name](c)
 
 
+# ---- tree level: render(tree) must re-parse to the SAME tree, for trees with symbolic characters ------------------------
+TREE_SKELETONS = ["char", "char-char", "set1", "set-range", "set-char-range", "set-range-char", "cset-range", "group"]
+TREE_QUANTIFIERS = {"none": None, "star": (0, None), "opt": (0, 1), "three": (3, 3), "two-five": (2, 5), "min-two": (2, None)}
+
+
+def _producible(position: str) -> List[int]:
+    """ASCII characters which the REAL parser can deliver as a not explicitly encoded Char at the given position."""
+    out = []
+    for c in range(128):
+        ch = chr(c)
+        found = False
+        for text in (ch, "\\" + ch):
+            pattern = text if position == "literal" else "[" + text + "]"
+            try:
+                tree, err = retree.parse([pattern])
+            except Exception:  # noqa (totality is the business of the text-level shards)
+                continue
+            if err is not None:
+                continue
+            concat = tree.union.uniates[0].concatenants if len(tree.union.uniates) == 1 else []
+            if len(concat) != 1 or concat[0].quantifier is not None:
+                continue
+            value = concat[0].value
+            if position == "literal":
+                if isinstance(value, retree.Char) and value.character == ch and not value.explicitly_encoded:
+                    found = True
+            else:
+                if isinstance(value, retree.CharSet) and not value.complementing and len(value.ranges) == 1 and \
+                        value.ranges[0].end is None and value.ranges[0].start.character == ch and \
+                        not value.ranges[0].start.explicitly_encoded:
+                    found = True
+        if found:
+            out.append(c)
+    return out
+
+
+_NOT_PRODUCIBLE = {pos: [c for c in range(128) if c not in _producible(pos)] for pos in ("literal", "set")}
+
+
+def _assume_producible(cp: Any, encoded: Any, position: str) -> None:
+    """A not explicitly encoded character must be one the parser can deliver raw or through a backslash escape."""
+    from vf.common import assume as _assume
+    ok: Any = True
+    for c in _NOT_PRODUCIBLE[position]:
+        ok = ok & (cp != c)
+    _assume(encoded | ok)
+
+
+def build_tree(skeleton: str, quant: str, cps: List[Any], enc: List[Any]) -> Any:
+    """A tree of the given shape whose characters (code points, 'explicitly encoded' flags) are symbolic."""
+    from vf.common import assume as _assume
+    for c in cps:
+        _assume(0 <= c <= 0x10FFFF)
+        _assume(not (0xD800 <= c <= 0xDFFF))
+    chars = [retree.Char(chr(c), explicitly_encoded=(True if e else False)) for c, e in zip(cps, enc)]
+    v = TREE_QUANTIFIERS[quant]
+    q = None if v is None else retree.Quantifier(non_greedy=False, minimum=v[0], maximum=v[1])
+    T = retree.Term
+    a, b, c = chars[0], chars[1], chars[2]
+    positions = {"char": "l", "char-char": "ll", "group": "lll"}.get(skeleton, "sss")
+    for cp, e, pos in zip(cps, enc, positions):
+        _assume_producible(cp, True if e else False, "literal" if pos == "l" else "set")
+    if skeleton == "char":
+        terms = [T(a, q)]
+    elif skeleton == "char-char":
+        terms = [T(a, q), T(b, None)]
+    elif skeleton == "set1":
+        terms = [T(retree.CharSet(False, [retree.Range(a, None)]), q)]
+    elif skeleton == "set-range":
+        _assume(cps[0] <= cps[1])
+        terms = [T(retree.CharSet(False, [retree.Range(a, b)]), q)]
+    elif skeleton == "set-char-range":
+        _assume(cps[1] <= cps[2])
+        _assume((cps[0] < cps[1]) | (cps[0] > cps[2]))
+        terms = [T(retree.CharSet(False, [retree.Range(a, None), retree.Range(b, c)]), q)]
+    elif skeleton == "set-range-char":
+        _assume(cps[0] <= cps[1])
+        _assume((cps[2] < cps[0]) | (cps[2] > cps[1]))
+        terms = [T(retree.CharSet(False, [retree.Range(a, b), retree.Range(c, None)]), q)]
+    elif skeleton == "cset-range":
+        _assume(cps[0] <= cps[1])
+        _assume(cps[1] < 0x10000)  # the parser admits only BMP characters in complemented sets
+        terms = [T(retree.CharSet(True, [retree.Range(a, b)]), q)]
+    elif skeleton == "group":
+        u = retree.UnionExpr([retree.Concatenation([T(a, None)]), retree.Concatenation([T(b, None), T(c, None)])])
+        terms = [T(retree.Group(u), q)]
+    else:
+        raise AssertionError(skeleton)
+    return retree.Regex(retree.UnionExpr([retree.Concatenation(terms)]))
+
+
+def check_tree(skeleton: str, quant: str, cps: List[Any], enc: List[Any]) -> str:
+    tree = build_tree(skeleton, quant, cps, enc)
+    rendered = retree.render(tree)
+    for piece in rendered:
+        if not isinstance(piece, str):
+            fail("roundtrip:non-string-rendered")
+    r = "".join(rendered)
+    regex2, error2 = retree.parse([r])
+    if error2 is not None:
+        fail("roundtrip:rendering-of-a-tree-does-not-parse:" + skeleton, "cps=%r enc=%r rendered %r: %s", cps, enc, r,
+             lambda: error2.message)
+    if not same_tree(tree, regex2):
+        fail("roundtrip:rendering-of-a-tree-parses-to-another-tree:" + skeleton, "cps=%r enc=%r rendered %r -> %r", cps, enc, r,
+             lambda: "".join(retree.render(regex2)))
+    if not symbolic():
+        # concrete replay: the rendering must also be a valid Python regular expression
+        try:
+            re.compile(r)
+        except re.error as e:
+            fail("faithful:rendering-of-a-tree-is-not-a-python-regex:" + skeleton, "%r: %s", r, e)
+    return "ok"
+
+
 def make_harness(params: Dict[str, Any]):
+    if params.get("kind") == "tree":
+        skeleton, quant = params["skeleton"], params["quant"]
+        n_chars = {"char": 1, "char-char": 2, "set1": 1, "set-range": 2, "cset-range": 2}.get(skeleton, 3)
+        fixed_enc = params.get("enc")
+
+        def tree_harness(c0: int, c1: int, c2: int, e0: bool, e1: bool, e2: bool) -> Any:
+            cps, enc = [c0, c1, c2], [e0, e1, e2]
+            for i in range(3):
+                if i >= n_chars:
+                    assume(cps[i] == 97 and not enc[i])
+                elif fixed_enc is not None:
+                    assume(enc[i] == fixed_enc[i])
+            return check_tree(skeleton, quant, cps, enc)
+
+        return tree_harness
+    if params.get("kind") == "quantifier-body":
+        body_len, closed = params["body_len"], params["closed"]
+
+        def quantifier_harness(body: str) -> Any:
+            assume(len(body) == body_len)
+            return check("a{" + body + ("}" if closed else ""), params["rx_len"])
+
+        return quantifier_harness
     max_len = params["max_len"]
     min_len = params.get("min_len", 0)
     first = params["first"]
@@ -199,6 +359,25 @@ def shards(tier: str) -> List[Dict[str, Any]]:
                 out.append({"name": f"2<=len<={core_len},first={f},second={g}",
                             "params": {"max_len": core_len, "min_len": 2, "first": f, "second": g, "rx_len": rx_len},
                             "budget_s": budget, "per_path_timeout": 40})
+    # quantifier bodies: the text 'a{' + body [+ '}'] for every body of a few arbitrary characters
+    for body_len in range(0, 3 if tier == "quick" else 5):
+        for closed in (True, False):
+            out.append({"name": f"quantifier-body:len={body_len},{'closed' if closed else 'open'}",
+                        "params": {"kind": "quantifier-body", "body_len": body_len, "closed": closed, "max_len": 0,
+                                   "rx_len": rx_len + 2},
+                        "budget_s": budget, "per_path_timeout": 40, **({"exploratory": True} if body_len >= 2 else {})})
+    # tree level: symbolic characters in fixed tree shapes (render -> parse must give the same tree)
+    for skeleton in TREE_SKELETONS:
+        n_chars = {"char": 1, "char-char": 2, "set1": 1, "set-range": 2, "cset-range": 2}.get(skeleton, 3)
+        quants = (["none", "two-five"] if n_chars < 3 else ["none"]) if tier == "quick" else list(TREE_QUANTIFIERS)
+        for quant in quants:
+            import itertools as _it
+            for enc in _it.product((False, True), repeat=n_chars):
+                out.append({"name": f"tree:{skeleton},{quant},encoded={''.join('1' if e else '0' for e in enc)}",
+                            "params": {"kind": "tree", "skeleton": skeleton, "quant": quant,
+                                       "enc": list(enc) + [False] * (3 - n_chars), "max_len": 0, "rx_len": 0},
+                            "budget_s": (150 if n_chars < 3 else 60) if tier == "quick" else 2400, "per_path_timeout": 40,
+                            **({"exploratory": True} if (tier == "quick" and n_chars >= 3) else {})})
     # deeper, budgeted exploration (not part of the exhaustive claim)
     for f in classes:
         for g in classes:
@@ -236,14 +415,23 @@ def describe(tier: str) -> Dict[str, Any]:
     return {
         "functions": ["aas_core_codegen.parse.retree._parse.parse", "aas_core_codegen.parse.retree._parse.render_pointer",
                       "aas_core_codegen.parse.retree._render.render", "aas_core_codegen.parse.retree._parse.Cursor"],
-        "bounds": f"pattern: symbolic str over all of Unicode, exhaustively claimed for len <= {s[0]['params']['max_len']} (one shard "
+        "bounds": f"tree level: {len(TREE_SKELETONS)} tree shapes (literal, two literals, sets with single characters and ranges, complemented set, "
+                  "group with alternatives) x quantifiers, every character a symbolic code point over all scalar values with a "
+                  "symbolic/explicit 'explicitly encoded' flag: render -> parse must reproduce the tree. Text level: "
+                  f"pattern: symbolic str over all of Unicode, exhaustively claimed for len <= {s[0]['params']['max_len']} (one shard "
                   f"per class of the first (and second) character) plus budgeted exploratory shards one character longer; language comparison (rx, z3 QF_LIA) on strings of length <= {s[0]['params']['rx_len']} "
                   "over all code points",
         "outside": "longer patterns; FormattedValue pieces (f-string patterns) are exercised in C08; faithfulness is "
                    "decided for ONE realized witness per path class of the parser (and for every corpus pattern), not for "
                    "all members of the class",
-        "stubs": ["retree.Renderer._ESCAPING_IN_CHARACTER_LITERALS/_ESCAPING_IN_RANGE: dict -> linear equality scan"],
-        "assumptions": ["faithfulness is only asserted for patterns that Python's re.compile accepts (the front end "
+        "stubs": ["re.fullmatch inside retree/_parse.py (checks of hexadecimal digits) -> NFA reachability term of the same pattern; "
+                  "int(text, 16) and format(n, '04x') -> division-free symbolic arithmetic (vf/sx.py)",
+                  "retree.Renderer._ESCAPING_IN_CHARACTER_LITERALS/_ESCAPING_IN_RANGE: dict -> linear equality scan"],
+        "assumptions": ["tree level: a character which is not explicitly encoded is one which the real parser delivers for the raw or the "
+                        "backslash-escaped character at that position (computed from the real parser for ASCII at import: "
+                        f"excluded as literal {[chr(c) for c in _NOT_PRODUCIBLE['literal']]!r}, in a set "
+                        f"{[chr(c) for c in _NOT_PRODUCIBLE['set']]!r}); str.encode('unicode_escape') of one character is a model in vf/sx.py",
+                        "faithfulness is only asserted for patterns that Python's re.compile accepts (the front end "
                         "compiles every pattern with re before parsing it)",
                         "render_pointer is only required for patterns without \\n \\r \\f \\v (its documented precondition)"],
         "rule": "symbolic pattern string; every path through Cursor/_parse_*/render is enumerated; per accepted path the "
